@@ -341,7 +341,7 @@ def r3_reward(ctx):
                 "apply_proposer_action is reachable when action is None", seal.where(bi))
         e = seal.rec_call(t, bi)
         a = e[2][1]
-        r.check(a == ("vfield", ("param", 2, "action"), "Some", "0"), "action-arg", "the action applied is the caller's", "the action applied is %s" % show(a), seal.where(bi))
+        r.check(q.novers(a) == ("try", ("param", 2, "action")), "action-arg", "the action applied is the caller's", "the action applied is %s" % show(a), seal.where(bi))
 
 
 RULES = [r1_fee_gate, r2_split, r3_reward]
